@@ -46,8 +46,14 @@ class P(Prop):
     # ---- generation ------------------------------------------------------------------------------
     def gen(self, rng, tier, override=None):
         out = []
-        for _ in range(self.n_cases(tier, override)):
+        # the families with a handful of fixed variants are enumerated first, whatever the seed
+        forced = [("dup_shaft", v) for v in ("engine", "load", "cross-category", "other-line", "load-engine-load")] + \
+                 [("hybrid", v) for v in ("same", "copy", "renamed", "none_mech", "none_elec", "extra")]
+        for it in range(self.n_cases(tier, override)):
             fam = rng.choice(FAMILIES + ["mech", "mech"])
+            force = forced[it] if (it < len(forced) and not override) else None
+            if force:
+                fam = force[0]
             if fam == "mech":
                 # mechanical plants: valid ones, and ones with ONE efficiency curve made non-monotonic - the gearbox of a geared
                 # main engine or a mechanical load
@@ -201,8 +207,12 @@ class P(Prop):
                 case["what"] = where
             elif fam == "hybrid":
                 case["hybrid"] = rng.choice(["same", "copy", "renamed", "none_mech", "none_elec", "extra"])
+                if force:
+                    case["hybrid"] = force[1]
             elif fam == "dup_shaft":
                 case["shaft_dup"] = rng.choice(["engine", "load", "cross-category", "other-line", "load-engine-load"])
+                if force:
+                    case["shaft_dup"] = force[1]
             out.append(case)
         return out
 
